@@ -44,7 +44,7 @@ NewArgMayStart(p, before) == /\ p.ok /\ ~p.ext /\ p.st.ps.k # "opt" /\ ~p.st.tra
 DD == <<45, 45>>
 VisibleArg(a) == ~a.hide
 \* long spellings offered for an argument (Arg::alias is a hidden alias: offered only as hidden)
-LongSpellings(a) == IF a.long # <<>> THEN {DD \o a.long} ELSE {}
+LongSpellings(a) == (IF a.long # <<>> THEN {DD \o a.long} ELSE {}) \cup {DD \o a.valiases[i] : i \in 1..Len(a.valiases)}
 ShortSpellings(a) == IF a.short # <<>> THEN {<<45>> \o a.short} ELSE {}
 ArgExtends(a, w) ==
   \/ \E s \in LongSpellings(a) : StartsWith(s, w)
@@ -89,7 +89,9 @@ CandidateSound(c, st, w, cand) ==
 \* hidden candidates only when nothing visible is offered; what is hidden is read off the definition:
 \* a hidden argument, a hidden alias (Arg::alias / Command::alias), a hidden subcommand
 DeclaredHidden(c, cand) ==
-  CASE cand.k = "arg" -> HasArg(c, cand.id) /\ (ArgOf(c, cand.id).hide \/ \E i \in 1..Len(ArgOf(c, cand.id).aliases) : cand.value = DD \o ArgOf(c, cand.id).aliases[i])
+  CASE cand.k = "arg" -> HasArg(c, cand.id) /\ (ArgOf(c, cand.id).hide \/ \E i \in 1..Len(ArgOf(c, cand.id).aliases) :
+                                                         /\ cand.value = DD \o ArgOf(c, cand.id).aliases[i]
+                                                         /\ ArgOf(c, cand.id).aliases[i] \notin SeqToSet(ArgOf(c, cand.id).valiases))
     [] cand.k = "command" -> LET si == FindSubcommand(c, cand.value) IN
                              si # 0 /\ ~SubView(c)[si].auto /\ (c.subs[SubView(c)[si].i].hide \/ cand.value # SubView(c)[si].name)
     [] OTHER -> cand.hidden
